@@ -8,6 +8,7 @@ CONSTANTS
   InitImg = 1
   CorruptMode = "serve"
   ReaderDeletes = TRUE
+  ReaderRestores = TRUE
   AllowDeleteFresh = TRUE
   ReaderCrash = TRUE
 CONSTRAINT HighWater
